@@ -85,6 +85,13 @@ def one(ctx, rng, k, do_codegen):
             for f in os.listdir(folder):
                 if f.endswith(".pymoca_cache"):
                     os.remove(os.path.join(folder, f))
+            # codegen does not force expand_mx: the reference is a fresh compile under exactly these options; a model
+            # that does not compile under them (e.g. detect_aliases on 'x = x' without expand_mx) is outside the property
+            try:
+                sig_ref = cachecmp.signature(api.transfer_model(folder, "M", dict(opts)))
+            except Exception as e:
+                ctx.discard("fresh-compile-without-expand_mx-fails:" + type(e).__name__)
+                return
             r1 = run_worker(folder, dict(opts, codegen=True))
             r2 = run_worker(folder, dict(opts, codegen=True))
             for label, r in (("codegen first process (compile)", r1), ("codegen second process (load .so)", r2)):
@@ -94,8 +101,6 @@ def one(ctx, rng, k, do_codegen):
                 ctx.monitor("signature_comparisons")
             if r2.get("class") == "CachedModel":
                 ctx.monitor("codegen_loads")
-            # codegen does not force expand_mx: the reference is a fresh compile under exactly these options
-            sig_ref = cachecmp.signature(api.transfer_model(folder, "M", dict(opts)))
             for label, r in (("codegen first process (compile)", r1), ("codegen second process (load .so)", r2)):
                 d = cachecmp.first_difference(sig_ref, r["signature"])
                 if d:
